@@ -42,6 +42,8 @@ def pv(x) -> str:
         return f"f:{show_rat(float(x))}"
     if isinstance(x, str):
         return f"s:{x}"
+    if isinstance(x, list):          # a Python list of ints (mol_indices)
+        return "a:big:" + (",".join(str(int(v)) for v in x) or "-")
     raise TypeError(type(x))
 
 
@@ -73,7 +75,7 @@ def call_real(f, *a, **k):
 def show_real(r) -> str:
     if isinstance(r, str) and r.startswith("ERR:"):
         return "err:" + r[4:]
-    if isinstance(r, (list, tuple)):
+    if isinstance(r, tuple):
         return " ".join(pv(v) for v in r)
     return pv(r)
 
@@ -183,7 +185,7 @@ def suite_gen(which: set[str]):
                     if isinstance(o, str):
                         real = o
                     else:
-                        real = [type(o).__name__] + [float(getattr(o, a)) for a in ("decay", "offset", "tolerance") if hasattr(o, a)]
+                        real = tuple([type(o).__name__] + [float(getattr(o, a)) for a in ("decay", "offset", "tolerance") if hasattr(o, a)])
                     compare("get_merge_accept_fn", [name if name else "@s:", tol], real, exp_tab=proxy.calls)
                 if "pages" in which:
                     P = 4096 * 512
@@ -201,8 +203,8 @@ def suite_gen(which: set[str]):
                         mgr.release_curr_page_and_update_addr()
                     finally:
                         MEM._madvise_dontneed = orig
-                    real = ["_madvise_dontneed", rec[0][0], rec[0][1], mgr.can_release, mgr._pagesizex, mgr._iters_per_pagex,
-                            mgr._curr_page_start_addr]
+                    real = ("_madvise_dontneed", rec[0][0], rec[0][1], mgr.can_release, mgr._pagesizex, mgr._iters_per_pagex,
+                            mgr._curr_page_start_addr)
                     compare("_ArrayMemPagesManager_release_curr_page_and_update_addr", [can, P, iters, addr], real)
                     # from_bb_input on a stand-in object exposing exactly the attributes the code reads
                     import mmap as _mmap
@@ -233,8 +235,56 @@ def suite_gen(which: set[str]):
                         m2 = call_real(MEM._ArrayMemPagesManager.from_bb_input, x, canrel)
                     finally:
                         del MEM.__dict__["isinstance"]
-                    real = m2 if isinstance(m2, str) else [m2.can_release, m2._pagesizex, m2._iters_per_pagex, m2._curr_page_start_addr]
+                    real = m2 if isinstance(m2, str) else (m2.can_release, m2._pagesizex, m2._iters_per_pagex, m2._curr_page_start_addr)
                     compare("_ArrayMemPagesManager_from_bb_input", [canrel, data, is_mm, ndim, off, ncols, _mmap.PAGESIZE], real)
+            if "subcluster" in which:
+                import bblean.bitbirch as BBM
+                for _ in range(N):
+                    F = rng.randint(1, 16)
+                    n1 = rng.choice([1, 1, 2, 5, 100, 127, 128, 200, 254, 255, 256, 300, 65534, 65535, 65536, 70000])
+                    n2 = rng.choice([1, 1, 1, 2, 3, 128, 255, 256, 1000])
+                    mk = lambda n: BBM._BFSubcluster(buffer=np.asarray(
+                        [rng.choice([0, n, n // 2, (n + 1) // 2, rng.randint(0, n)]) for _ in range(F)] + [n], dtype=min_safe_uint(n)),
+                        mol_indices=list(range(1000, 1000 + n)) if n <= 300 else [7] * n, check_indices=True)
+                    if max(n1, n2) > 300 and rng.random() < 0.7:
+                        n1 = rng.choice([127, 254, 255])
+                    c, sb = mk(n1), mk(n2)
+
+                    def state(o):
+                        return (np.array(o._buffer), np.array(o.packed_centroid), o.child, list(o.mol_indices))
+                    st_c, st_s = state(c), state(sb)
+                    compare("_BFSubcluster_n_samples", list(st_c), c.n_samples)
+                    compare("_BFSubcluster_linear_sum", list(st_c), np.array(c.linear_sum))
+                    which_m = rng.choice(["update", "add_to", "replace", "merge", "merge"])
+                    if which_m == "update":
+                        args = list(st_c) + list(st_s)
+                        r = call_real(c.update, sb)
+                        compare("_BFSubcluster_update", args, r if isinstance(r, str) else state(c))
+                    elif which_m == "add_to":
+                        args = list(st_c) + [sb.n_samples, np.array(sb.linear_sum)]
+                        r = call_real(c.add_to_n_samples_and_linear_sum, sb.n_samples, sb.linear_sum)
+                        compare("_BFSubcluster_add_to_n_samples_and_linear_sum", args, r if isinstance(r, str) else state(c))
+                    elif which_m == "replace":
+                        nn = rng.choice([n1, n1 + n2, 255, 256, 3])
+                        ndt = rng.choice([np.uint8, np.uint16, np.uint64])
+                        nls = np.asarray([min(rng.randint(0, nn), np.iinfo(ndt).max) for _ in range(F)], dtype=ndt)
+                        args = list(st_c) + [nn, nls]
+                        r = call_real(c.replace_n_samples_and_linear_sum, nn, nls)
+                        compare("_BFSubcluster_replace_n_samples_and_linear_sum", args, r if isinstance(r, str) else state(c))
+                    else:
+                        crit = rng.choice(list(M.BUILTIN_MERGES))
+                        tol = rng.choice([0.0, 0.05, 0.5])
+                        thr = rng.choice([0.0, 0.3, 0.65, 1.0, rng.random()])
+                        proxy = NpProxy()
+                        M.np = proxy
+                        try:
+                            fn = M.get_merge_accept_fn(crit, tol)
+                            r = call_real(c.merge_subcluster, sb, thr, fn)
+                        finally:
+                            M.np = np
+                        obj = [type(fn).__name__] + [float(getattr(fn, a)) for a in ("decay", "offset", "tolerance") if hasattr(fn, a)]
+                        args = list(st_c) + list(st_s) + [thr] + obj
+                        compare("_BFSubcluster_merge_subcluster", args, r if isinstance(r, str) else (r,) + state(c), exp_tab=proxy.calls)
             res.counters = cnt
             res.nontrivial = sum(cnt.values())
             res.traces = res.evaluations
